@@ -734,6 +734,37 @@ func ThroughNew(v ssa.Value) ssa.Value {
 	return v
 }
 
+// ParamSource follows a parameter of a function that did not exist at review time (an extracted helper with a single
+// call site) to the argument it is given there, so that "the same value" can be recognised across the extraction.
+func ParamSource(v ssa.Value) ssa.Value {
+	for depth := 0; depth < 4; depth++ {
+		prm, ok := v.(*ssa.Parameter)
+		if !ok {
+			return v
+		}
+		fn := prm.Parent()
+		if fn == nil || !IsNew(fn) {
+			return v
+		}
+		sites := SitesOf(fn)
+		if len(sites) != 1 {
+			return v
+		}
+		idx := -1
+		for i, q := range fn.Params {
+			if q == prm {
+				idx = i
+			}
+		}
+		args := sites[0].Common().Args
+		if idx < 0 || idx >= len(args) {
+			return v
+		}
+		v = args[idx]
+	}
+	return v
+}
+
 // CondOf is the condition of an If seen through extracted predicates.
 func CondOf(iff *ssa.If) ssa.Value { return ThroughNew(iff.Cond) }
 
